@@ -34,6 +34,9 @@ static size_t msg_len;
 static int has_pc = 0;
 static int cur_curve = -1;
 static char size_cls[16];
+/* element count of the array-taking ops (plan field n=, 0..12) */
+static int cnt = 3;
+#define NMAX 13
 
 /* long-lived keys, created at boot outside any fault window */
 static rsa_t rsa_pub, rsa_prv;
@@ -306,41 +309,54 @@ OP(bn_read_bin) {
 	out_bn(R[0]);
 }
 OP(bn_lag) {
-	bn_t c[4], a[3], n;
+	bn_t c[NMAX + 1], a[NMAX], n;
 	bn_null(n); bn_new(n);
 	ep_curve_get_ord(n);
-	for (int i = 0; i < 4; i++) { bn_null(c[i]); bn_new(c[i]); }
-	for (int i = 0; i < 3; i++) { bn_null(a[i]); bn_new(a[i]); bn_mod(a[i], B[i], n); bn_add_dig(a[i], a[i], i + 1); }
-	W(bn_lag(c, (const bn_t *)a, n, 3));
-	for (int i = 0; i < 4; i++) { out_bn(c[i]); }
-	for (int i = 0; i < 4; i++) { bn_free(c[i]); }
-	for (int i = 0; i < 3; i++) { bn_free(a[i]); }
+	for (int i = 0; i <= NMAX; i++) { bn_null(c[i]); bn_new(c[i]); bn_zero(c[i]); }
+	for (int i = 0; i < NMAX; i++) { bn_null(a[i]); bn_new(a[i]); bn_mod(a[i], B[i % NB], n); bn_add_dig(a[i], a[i], i + 1); }
+	W(bn_lag(c, (const bn_t *)a, n, (size_t)cnt));
+	for (int i = 0; i <= cnt; i++) { out_bn(c[i]); }
+	for (int i = 0; i <= NMAX; i++) { bn_free(c[i]); }
+	for (int i = 0; i < NMAX; i++) { bn_free(a[i]); }
 	bn_free(n);
 }
 OP(bn_evl) {
-	bn_t a[3], n;
+	bn_t a[NMAX], n;
 	bn_null(n); bn_new(n);
 	ep_curve_get_ord(n);
-	for (int i = 0; i < 3; i++) { bn_null(a[i]); bn_new(a[i]); bn_mod(a[i], B[i], n); }
-	W(bn_evl(R[0], (const bn_t *)a, B[3], n, 3));
+	for (int i = 0; i < NMAX; i++) { bn_null(a[i]); bn_new(a[i]); bn_mod(a[i], B[i % NB], n); }
+	W(bn_evl(R[0], (const bn_t *)a, B[3], n, (size_t)cnt));
 	out_bn(R[0]);
-	for (int i = 0; i < 3; i++) { bn_free(a[i]); }
+	for (int i = 0; i < NMAX; i++) { bn_free(a[i]); }
 	bn_free(n);
 }
 OP(bn_rand_mod) { W(bn_rand_mod(R[0], B[2])); out_bn(R[0]); }
 OP(bn_mod_inv_sim) {
-	bn_t c[3], a[3], n;
+	bn_t c[NMAX], a[NMAX], n;
 	bn_null(n); bn_new(n);
 	ep_curve_get_ord(n);
-	for (int i = 0; i < 3; i++) {
+	for (int i = 0; i < NMAX; i++) {
 		bn_null(a[i]); bn_new(a[i]); bn_null(c[i]); bn_new(c[i]);
-		bn_mod(a[i], B[i], n);
+		bn_mod(a[i], B[i % NB], n);
+		bn_add_dig(a[i], a[i], (dig_t)i);
 		if (bn_is_zero(a[i])) bn_set_dig(a[i], 2);
+		bn_zero(c[i]);
 	}
-	W(bn_mod_inv_sim(c, (const bn_t *)a, n, 3));
-	for (int i = 0; i < 3; i++) { out_bn(c[i]); }
-	for (int i = 0; i < 3; i++) { bn_free(a[i]); bn_free(c[i]); }
+	W(bn_mod_inv_sim(c, (const bn_t *)a, n, cnt));
+	for (int i = 0; i < cnt; i++) { out_bn(c[i]); }
+	for (int i = 0; i < NMAX; i++) { bn_free(a[i]); bn_free(c[i]); }
 	bn_free(n);
+}
+OP(bn_mxp_sim_lot) {
+	bn_t a[NMAX], b[NMAX];
+	for (int i = 0; i < NMAX; i++) {
+		bn_null(a[i]); bn_new(a[i]); bn_null(b[i]); bn_new(b[i]);
+		bn_mod(a[i], B[i % NB], B[2]); bn_add_dig(a[i], a[i], (dig_t)i + 2);
+		bn_mod_2b(b[i], B[(i + 1) % NB], 70);
+	}
+	W(bn_mxp_sim_lot(R[0], (const bn_t *)a, (const bn_t *)b, B[2], (size_t)cnt));
+	if (cnt > 0) out_bn(R[0]);
+	for (int i = 0; i < NMAX; i++) { bn_free(a[i]); bn_free(b[i]); }
 }
 
 /* ---- fp / fpx ---- */
@@ -349,15 +365,28 @@ OP(fp_sqr) { W(fp_sqr(FR[0], F[0])); out_fp(FR[0]); }
 #define FPINV(N) OP(fp_inv_##N) { if (!fp_is_zero(F[0])) { W(fp_inv_##N(FR[0], F[0])); } out_fp(FR[0]); }
 FPINV(basic) FPINV(binar) FPINV(monty) FPINV(exgcd) FPINV(divst) FPINV(jmpds) FPINV(lower)
 OP(fp_inv_sim) {
-	fp_t a[3], c[3];
-	for (int i = 0; i < 3; i++) {
+	fp_t a[NMAX], c[NMAX];
+	for (int i = 0; i < NMAX; i++) {
 		fp_null(a[i]); fp_null(c[i]); fp_new(a[i]); fp_new(c[i]);
-		fp_copy(a[i], F[i]);
+		fp_add_dig(a[i], F[i % 4], (dig_t)i);
 		if (fp_is_zero(a[i])) fp_set_dig(a[i], 5);
+		fp_zero(c[i]);
 	}
-	W(fp_inv_sim(c, (const fp_t *)a, 3));
-	for (int i = 0; i < 3; i++) { out_fp(c[i]); }
-	for (int i = 0; i < 3; i++) { fp_free(a[i]); fp_free(c[i]); }
+	W(fp_inv_sim(c, (const fp_t *)a, cnt));
+	for (int i = 0; i < cnt; i++) { out_fp(c[i]); }
+	for (int i = 0; i < NMAX; i++) { fp_free(a[i]); fp_free(c[i]); }
+}
+OP(fp2_inv_sim) {
+	fp2_t a[NMAX], c[NMAX];
+	for (int i = 0; i < NMAX; i++) {
+		fp2_null(a[i]); fp2_null(c[i]); fp2_new(a[i]); fp2_new(c[i]);
+		fp_add_dig(a[i][0], F[i % 4], (dig_t)i); fp_copy(a[i][1], F[(i + 1) % 4]);
+		if (fp2_is_zero(a[i])) fp_set_dig(a[i][0], 5);
+		fp2_zero(c[i]);
+	}
+	W(fp2_inv_sim(c, (const fp2_t *)a, cnt));
+	for (int i = 0; i < cnt; i++) { out_fp(c[i][0]); out_fp(c[i][1]); }
+	for (int i = 0; i < NMAX; i++) { fp2_free(a[i]); fp2_free(c[i]); }
 }
 OP(fp_exp_basic) { W(fp_exp_basic(FR[0], F[0], B[0])); out_fp(FR[0]); }
 OP(fp_exp_slide) { W(fp_exp_slide(FR[0], F[0], B[0])); out_fp(FR[0]); }
@@ -420,11 +449,11 @@ OP(ep_dbl_projc) { W(ep_dbl_projc(PR[0], P[0])); out_ep(PR[0]); }
 OP(ep_dbl_jacob) { W(ep_dbl_jacob(PR[0], P[0])); out_ep(PR[0]); }
 OP(ep_norm) { ep_dbl_projc(PR[1], P[0]); W(ep_norm(PR[0], PR[1])); out_ep(PR[0]); }
 OP(ep_norm_sim) {
-	ep_t t[3], r[3];
-	for (int i = 0; i < 3; i++) { ep_null(t[i]); ep_null(r[i]); ep_new(t[i]); ep_new(r[i]); ep_dbl_projc(t[i], P[i]); }
-	W(ep_norm_sim(r, (const ep_t *)t, 3));
-	for (int i = 0; i < 3; i++) { out_ep(r[i]); }
-	for (int i = 0; i < 3; i++) { ep_free(t[i]); ep_free(r[i]); }
+	ep_t t[NMAX], r[NMAX];
+	for (int i = 0; i < NMAX; i++) { ep_null(t[i]); ep_null(r[i]); ep_new(t[i]); ep_new(r[i]); ep_dbl_projc(t[i], P[i % NP]); ep_set_infty(r[i]); }
+	W(ep_norm_sim(r, (const ep_t *)t, cnt));
+	for (int i = 0; i < cnt; i++) { out_ep(r[i]); }
+	for (int i = 0; i < NMAX; i++) { ep_free(t[i]); ep_free(r[i]); }
 }
 OP(ep_mul_basic) { W(ep_mul_basic(PR[0], P[0], B[0])); out_ep(PR[0]); }
 OP(ep_mul_slide) { W(ep_mul_slide(PR[0], P[0], B[0])); out_ep(PR[0]); }
@@ -444,24 +473,29 @@ OP(ep_mul_sim_inter) { W(ep_mul_sim_inter(PR[0], P[0], B[0], P[1], B[1])); out_e
 OP(ep_mul_sim_joint) { W(ep_mul_sim_joint(PR[0], P[0], B[0], P[1], B[1])); out_ep(PR[0]); }
 OP(ep_mul_sim_gen) { W(ep_mul_sim_gen(PR[0], B[0], P[1], B[1])); out_ep(PR[0]); }
 static void sim_lot(int n) {
-	ep_t p[5];
-	bn_t k[5];
-	for (int i = 0; i < 5; i++) { ep_null(p[i]); bn_null(k[i]); ep_new(p[i]); bn_new(k[i]); ep_copy(p[i], P[i]); bn_copy(k[i], B[i]); }
+	ep_t p[NMAX];
+	bn_t k[NMAX];
+	for (int i = 0; i < NMAX; i++) {
+		ep_null(p[i]); bn_null(k[i]); ep_new(p[i]); bn_new(k[i]);
+		ep_copy(p[i], P[i % NP]); bn_copy(k[i], B[i % NB]);
+		if (i >= NB) bn_add_dig(k[i], k[i], (dig_t)i);
+	}
 	W(ep_mul_sim_lot(PR[0], (const ep_t *)p, (const bn_t *)k, n));
 	out_ep(PR[0]);
-	for (int i = 0; i < 5; i++) { ep_free(p[i]); bn_free(k[i]); }
+	for (int i = 0; i < NMAX; i++) { ep_free(p[i]); bn_free(k[i]); }
 }
 OP(ep_mul_sim_lot0) { sim_lot(0); }
 OP(ep_mul_sim_lot1) { sim_lot(1); }
 OP(ep_mul_sim_lot2) { sim_lot(2); }
 OP(ep_mul_sim_lot5) { sim_lot(5); }
+OP(ep_mul_sim_lotn) { sim_lot(cnt); }
 OP(ep_mul_sim_dig) {
-	ep_t p[3];
-	dig_t k[3];
-	for (int i = 0; i < 3; i++) { ep_null(p[i]); ep_new(p[i]); ep_copy(p[i], P[i]); k[i] = B[i]->dp[0]; }
-	W(ep_mul_sim_dig(PR[0], (const ep_t *)p, k, 3));
+	ep_t p[NMAX];
+	dig_t k[NMAX];
+	for (int i = 0; i < NMAX; i++) { ep_null(p[i]); ep_new(p[i]); ep_copy(p[i], P[i % NP]); k[i] = B[i % NB]->dp[0] + (dig_t)i; }
+	W(ep_mul_sim_dig(PR[0], (const ep_t *)p, k, cnt));
 	out_ep(PR[0]);
-	for (int i = 0; i < 3; i++) { ep_free(p[i]); }
+	for (int i = 0; i < NMAX; i++) { ep_free(p[i]); }
 }
 OP(ep_map) { W(ep_map(PR[0], msg, msg_len)); out_ep(PR[0]); }
 OP(ep_map_basic) { W(ep_map_basic(PR[0], msg, msg_len)); out_ep(PR[0]); }
@@ -524,15 +558,18 @@ OP(rand_reseed) { W(rand_seed(msg, msg_len); rand_bytes(buf, 40)); out_bytes(buf
 
 /* ---- mpc ---- */
 OP(mpc_sss) {
-	bn_t x[4], y[4], n;
+	bn_t x[NMAX], y[NMAX], n;
 	int r1 = 0, r2 = 0;
+	size_t k = (size_t)(cnt % 7), nn = k + (size_t)(cnt / 7);
+	if (cnt == 3) { k = 3; nn = 4; }
 	bn_null(n); bn_new(n);
 	ep_curve_get_ord(n);
-	for (int i = 0; i < 4; i++) { bn_null(x[i]); bn_null(y[i]); bn_new(x[i]); bn_new(y[i]); }
+	for (int i = 0; i < NMAX; i++) { bn_null(x[i]); bn_null(y[i]); bn_new(x[i]); bn_new(y[i]); bn_zero(x[i]); bn_zero(y[i]); }
 	bn_mod(R[1], B[0], n);
-	W(r1 = mpc_sss_gen(x, y, R[1], n, 3, 4); if (r1 == RLC_OK) r2 = mpc_sss_key(R[0], (const bn_t *)x, (const bn_t *)y, n, 3));
+	bn_zero(R[0]);
+	W(r1 = mpc_sss_gen(x, y, R[1], n, k, nn); if (r1 == RLC_OK) r2 = mpc_sss_key(R[0], (const bn_t *)x, (const bn_t *)y, n, k));
 	out_int(r1); out_int(r2); out_bn(R[0]);
-	for (int i = 0; i < 4; i++) { bn_free(x[i]); bn_free(y[i]); }
+	for (int i = 0; i < NMAX; i++) { bn_free(x[i]); bn_free(y[i]); }
 	bn_free(n);
 }
 OP(mpc_mt) {
@@ -664,6 +701,36 @@ OP(pc_map_sim2) {
 	out_gt(GT[3]);
 	for (int i = 0; i < 2; i++) { g1_free(p[i]); g2_free(q[i]); }
 }
+OP(pc_map_simn) {
+	g1_t p[NMAX]; g2_t q[NMAX];
+	int m = cnt % 6;
+	for (int i = 0; i < NMAX; i++) { g1_null(p[i]); g2_null(q[i]); g1_new(p[i]); g2_new(q[i]); g1_copy(p[i], G1[i % 4]); g2_copy(q[i], G2[(i + 1) % 4]); }
+	if (m >= 3 && (cnt & 1)) g1_set_infty(p[1]);
+	W(pc_map_sim(GT[3], (const g1_t *)p, (const g2_t *)q, m));
+	out_gt(GT[3]);
+	for (int i = 0; i < NMAX; i++) { g1_free(p[i]); g2_free(q[i]); }
+}
+OP(g1_mul_sim_lot) {
+	g1_t p[NMAX]; bn_t k[NMAX];
+	for (int i = 0; i < NMAX; i++) { g1_null(p[i]); bn_null(k[i]); g1_new(p[i]); bn_new(k[i]); g1_copy(p[i], G1[i % 4]); bn_copy(k[i], B[i % NB]); bn_add_dig(k[i], k[i], (dig_t)i); }
+	W(g1_mul_sim_lot(G1[3], (const g1_t *)p, (const bn_t *)k, cnt));
+	out_ep(G1[3]);
+	for (int i = 0; i < NMAX; i++) { g1_free(p[i]); bn_free(k[i]); }
+}
+OP(g2_mul_sim_lot) {
+	g2_t p[NMAX]; bn_t k[NMAX];
+	for (int i = 0; i < NMAX; i++) { g2_null(p[i]); bn_null(k[i]); g2_new(p[i]); bn_new(k[i]); g2_copy(p[i], G2[i % 4]); bn_copy(k[i], B[i % NB]); bn_add_dig(k[i], k[i], (dig_t)i); }
+	W(g2_mul_sim_lot(G2[3], (const g2_t *)p, (const bn_t *)k, (size_t)cnt));
+	out_g2(G2[3]);
+	for (int i = 0; i < NMAX; i++) { g2_free(p[i]); bn_free(k[i]); }
+}
+OP(ep2_norm_sim) {
+	g2_t t[NMAX], r[NMAX];
+	for (int i = 0; i < NMAX; i++) { g2_null(t[i]); g2_null(r[i]); g2_new(t[i]); g2_new(r[i]); g2_dbl(t[i], G2[i % 4]); g2_set_infty(r[i]); }
+	W(ep2_norm_sim(r, (const ep2_t *)t, cnt));
+	for (int i = 0; i < cnt; i++) { out_g2(r[i]); }
+	for (int i = 0; i < NMAX; i++) { g2_free(t[i]); g2_free(r[i]); }
+}
 OP(g1_map) { W(g1_map(G1[3], msg, msg_len)); out_ep(G1[3]); }
 OP(g2_map) { W(g2_map(G2[3], msg, msg_len)); out_g2(G2[3]); }
 OP(g1_is_valid) { int r = 0; W(r = g1_is_valid(G1[0])); out_int(r); }
@@ -760,9 +827,9 @@ static const op_t ops[] = {
 	E(bn_lcm, 0), E(bn_smb_leg, 0), E(bn_smb_jac, 0), E(bn_is_prime, 0), E(bn_is_prime_solov, 0),
 	E(bn_gen_prime_small, 0), E(bn_factor, 0), E(bn_rec_naf, 0), E(bn_rec_win, 0), E(bn_rec_slw, 0), E(bn_rec_reg, 0),
 	E(bn_rec_jsf, 0), E(bn_rec_glv, 0), E(bn_read_str, 0), E(bn_write_str, 0), E(bn_read_bin, 0), E(bn_lag, 0),
-	E(bn_evl, 0), E(bn_rand_mod, 0), E(bn_mod_inv_sim, 0),
+	E(bn_evl, 0), E(bn_rand_mod, 0), E(bn_mod_inv_sim, 0), E(bn_mxp_sim_lot, 0),
 	E(fp_mul, 0), E(fp_sqr, 0), E(fp_inv_basic, 0), E(fp_inv_binar, 0), E(fp_inv_monty, 0), E(fp_inv_exgcd, 0),
-	E(fp_inv_divst, 0), E(fp_inv_jmpds, 0), E(fp_inv_lower, 0), E(fp_inv_sim, 0), E(fp_exp_basic, 0),
+	E(fp_inv_divst, 0), E(fp_inv_jmpds, 0), E(fp_inv_lower, 0), E(fp_inv_sim, 0), E(fp2_inv_sim, 0), E(fp_exp_basic, 0),
 	E(fp_exp_slide, 0), E(fp_exp_monty, 0), E(fp_srt, 0), E(fp_smb, 0), E(fp_prime_conv, 0), E(fp_prime_back, 0),
 	E(fp_write_str, 0), E(fp_read_str, 0), E(fp_read_bin, 0), E(fp2_inv, 0), E(fp2_srt, 0), E(fp2_mul, 0),
 	E(ep_add_basic, 0), E(ep_add_projc, 0), E(ep_add_jacob, 0), E(ep_dbl_basic, 0), E(ep_dbl_projc, 0),
@@ -770,7 +837,7 @@ static const op_t ops[] = {
 	E(ep_mul_lwnaf, 0), E(ep_mul_lwreg, 0), E(ep_mul_gen, 0), E(ep_mul_dig, 0), E(ep_mul_cof, 0),
 	E(ep_mul_fix_basic, 0), E(ep_mul_fix_combs, 0), E(ep_mul_fix_combd, 0), E(ep_mul_fix_lwnaf, 0),
 	E(ep_mul_sim_basic, 0), E(ep_mul_sim_trick, 0), E(ep_mul_sim_inter, 0), E(ep_mul_sim_joint, 0),
-	E(ep_mul_sim_gen, 0), E(ep_mul_sim_lot0, 0), E(ep_mul_sim_lot1, 0), E(ep_mul_sim_lot2, 0), E(ep_mul_sim_lot5, 0),
+	E(ep_mul_sim_gen, 0), E(ep_mul_sim_lot0, 0), E(ep_mul_sim_lot1, 0), E(ep_mul_sim_lot2, 0), E(ep_mul_sim_lot5, 0), E(ep_mul_sim_lotn, 0),
 	E(ep_mul_sim_dig, 0), E(ep_map, 0), E(ep_map_basic, 0), E(ep_map_swift, 0), E(ep_pck_upk, 0), E(ep_write_bin, 0),
 	E(ep_read_bin, 0), E(ep_rand, 0), E(ep_blind, 0), E(ep_on_curve, 0), E(ep_tab, 0),
 	E(md_kdf, 0), E(md_mgf, 0), E(md_hmac, 0), E(md_xmd, 0), E(bc_aes_cbc, 0), E(rand_reseed, 0),
@@ -779,7 +846,7 @@ static const op_t ops[] = {
 	E(cp_ecdsa_gen, 0), E(cp_ecss, 0), E(cp_ecdh, 0), E(cp_ecmqv, 0), E(cp_ecies, 0), E(cp_vbnn, 0), E(cp_pokdl, 0),
 	E(cp_ped_com, 0),
 	E(g1_mul, 1), E(g1_mul_gen, 1), E(g2_mul, 1), E(g2_mul_gen, 1), E(g2_add, 1), E(g2_mul_sim, 1), E(gt_exp, 1),
-	E(gt_exp_gen, 1), E(gt_inv_mul, 1), E(pc_map, 1), E(pc_map_sim2, 1), E(g1_map, 1), E(g2_map, 1),
+	E(gt_exp_gen, 1), E(gt_inv_mul, 1), E(pc_map, 1), E(pc_map_sim2, 1), E(pc_map_simn, 1), E(g1_mul_sim_lot, 1), E(g2_mul_sim_lot, 1), E(ep2_norm_sim, 1), E(g1_map, 1), E(g2_map, 1),
 	E(g1_is_valid, 1), E(g2_is_valid, 1), E(gt_is_valid, 1), E(g2_write_read, 1), E(gt_write_read, 1),
 	E(cp_bls, 1), E(cp_bls_gen, 1), E(cp_bbs, 1), E(cp_zss, 1), E(cp_cls, 1), E(cp_pss, 1), E(cp_ibe, 1),
 	E(cp_sokaka, 1), E(cp_pdpub, 1), E(pc_param_set_any, 1),
@@ -937,6 +1004,8 @@ static void engine_run(void) {
 		if (sl <= 0) { seed[0] = 1; sl = 1; }
 		const char *sz = tok_kv(tok, n, "size");
 		snprintf(size_cls, sizeof(size_cls), "%s", sz ? sz : "norm");
+		cnt = (int)(tok_kv_long(tok, n, "n", 3) % NMAX);
+		if (cnt < 0) cnt = 3;
 		const char *fl = tok_kv(tok, n, "fill");
 		uint64_t fa = 1, fb = 2;
 		if (fl) { fa = strtoull(fl, (char **)&fl, 10); if (*fl == ',') fb = strtoull(fl + 1, NULL, 10); }
